@@ -3,6 +3,7 @@ package main
 import (
 	"fmt"
 	"math/rand"
+	"strings"
 	"time"
 
 	"verif/engine"
@@ -31,6 +32,33 @@ func statePaths(tier string, rng *rand.Rand) []Path {
 	fl := samplePaths(filterPaths(tier, rng), tierN(tier, 200, 4000), rng)
 	fn := samplePaths(funcPaths(tier, rng), tierN(tier, 60, 800), rng)
 	return dedupPaths(append(append(append(append(one, two...), fl...), fn...), widePaths()...))
+}
+
+// bigDocs: concrete documents beyond the symbolic size bounds (buffers that
+// grow, tables that are extended, thresholds at 16/64/...): cheap, no forks.
+func bigDocs() []string {
+	arr := func(n int) string {
+		parts := make([]string, n)
+		for i := range parts {
+			parts[i] = fmt.Sprint(i)
+		}
+		return "[" + strings.Join(parts, ",") + "]"
+	}
+	obj := func(n int) string {
+		parts := make([]string, n)
+		for i := range parts {
+			parts[i] = fmt.Sprintf("\"k%03d\":%d", i, i)
+		}
+		return "{" + strings.Join(parts, ",") + ",\"a\":{\"a\":1,\"b\":[1,2]},\"b\":" + arr(20) + "}"
+	}
+	return []string{arr(100), arr(300), obj(70), "[" + arr(70) + "," + arr(3) + ",{\"a\":" + arr(40) + "}]"}
+}
+
+func bigDocPaths(tier string, rng *rand.Rand) []Path {
+	sp := stepPaths(tier, rng)
+	one := pathsWith(sp, func(p Path) bool { return nSteps(p) == 1 && p.Holes == "" })
+	two := samplePaths(pathsWith(sp, func(p Path) bool { return nSteps(p) == 2 && p.Holes == "" }), tierN(tier, 40, 400), rng)
+	return dedupPaths(append(append(one, two...), widePaths()...))
 }
 
 func smallDoc(p Path) *engine.DocCfg {
@@ -172,6 +200,18 @@ func init() {
 						Docs:   map[string]*engine.DocCfg{"doc1": dm}, MaxPaths: 400000, TimeLimit: 4 * time.Minute})
 				}
 			}
+			bi := 0
+			for _, p := range bigDocPaths(tier, rng) {
+				for _, d := range bigDocs() {
+					cfg := ""
+					if p.Funcs {
+						cfg = "funcs"
+					}
+					jobs = append(jobs, &engine.Job{ID: fmt.Sprintf("c05big-%d", bi), Harness: "zzH_C05", Fuel: 60_000_000,
+						Params: map[string]string{"path": p.Text, "holes": "", "config": cfg, "history": "2", "recycle": "1", "scribble": "0", "mutate": "0", "json": d}})
+					bi++
+				}
+			}
 			return jobs
 		},
 		Bounds: func(tier string) map[string]interface{} {
@@ -204,6 +244,18 @@ func init() {
 				jobs = append(jobs, &engine.Job{ID: fmt.Sprintf("c06p-%d", i), Harness: "zzH_C06_parse",
 					Params: map[string]string{"path": p.Text, "holes": p.Holes, "config": cfg}})
 			}
+			bi := 0
+			for _, p := range bigDocPaths(tier, rng) {
+				for _, d := range bigDocs() {
+					cfg := ""
+					if p.Funcs {
+						cfg = "funcs"
+					}
+					jobs = append(jobs, &engine.Job{ID: fmt.Sprintf("c06big-%d", bi), Harness: "zzH_C06_eval", Fuel: 40_000_000,
+						Params: map[string]string{"path": p.Text, "holes": "", "config": cfg, "json": d}})
+					bi++
+				}
+			}
 			for i, bad := range badPaths() {
 				jobs = append(jobs, &engine.Job{ID: fmt.Sprintf("c06bad-%d", i), Harness: "zzH_C06_parse",
 					Params: map[string]string{"path": bad, "holes": "", "config": "funcs"}})
@@ -212,7 +264,7 @@ func init() {
 		},
 		Bounds: func(tier string) map[string]interface{} {
 			return map[string]interface{}{"calls": "one Parse (valid corpus paths and paths failing at every action kind) and one evaluation per corpus path on Doc(<=2 levels, arrays 0..2, keys {a,b})",
-				"argument": "conflict-freedom of every single call => any interleaving is equivalent to a sequential order; std sync.Mutex, sync.Pool and regexp are trusted to be goroutine-safe"}
+				"large documents": "additionally every 1-step and sampled 2-step corpus path on four concrete documents beyond the symbolic bounds (arrays of 100 and 300 elements, an object with 72 members, nested arrays of 70 and 40)", "argument": "conflict-freedom of every single call => any interleaving is equivalent to a sequential order; std sync.Mutex, sync.Pool and regexp are trusted to be goroutine-safe"}
 		},
 		Stubs:        stateStubs,
 		Assumptions:  append([]string{"schedules are not enumerated: the check proves conflict-freedom per call, a sufficient condition", "sync.Mutex, sync.Pool, regexp.Regexp are goroutine-safe"}, commonAssumptions...),
